@@ -19,6 +19,11 @@ POSITIONS = [
     ("quote", b"> {P}\n", "text"), ("emphasis", b"*{P}*\n", "text"), ("link-text", b"[{P}](http://x.y/)\n", "text"), ("link-title", b"[t](http://x.y/ \"{P}\")\n", "attr"),
     ("url", b"[t](http://x.y/{P})\n", "attr"), ("image-alt", b"![{P}](i.png)\n", "attr"), ("footnote", b"x[^f]\n\n[^f]: {P}\n", "text"), ("definition", b"term\n: {P}\n", "text"),
     ("code-span", b"a `{P}` b\n", "verbatim"), ("code-block", b"```\n{P}\n```\n", "verbatim"), ("indented-code", b"    {P}\n", "verbatim"), ("math", b"a ${P}$ b\n", "verbatim"),
+    # text that is written more than once (first use / re-use paths of the note writers)
+    ("abbreviation-short-form-reused", b"[>{P}]: expansion\n\nuse [>{P}] and again [>{P}] end\n", "text"),
+    ("glossary-term-reused", b"[?{P}]: definition\n\nuse [?{P}] and again [?{P}] end\n", "text"),
+    ("footnote-reused", b"x[^f] y[^f] z\n\n[^f]: {P}\n", "text"),
+    ("abbreviation-expansion", b"[>AB]: {P}\n\nuse [>AB] and again [>AB] end\n", "text"),
     ("metadata-value", None, "meta"),
 ]
 SKELETONS = [(b"", b""), (b"qb10 before\n\n", b"\nqb20 after\n"), (b"* qb11 item\n\n# qb10 head\n\n", b"\n> qb20 quote\n\n    qb21 code\n\nqb22 [qb23](u) `qb24`\n")]
@@ -109,12 +114,13 @@ def make_case():
         doc, probe = make_doc(pi, c, tight, sk)
         base_doc, _ = make_doc(pi, b"x", tight, sk)
         if c in ESCP:
-            if kind in ("meta", "attr"): return (None, [], dict(skipped=1))          # escapes are defined for running text; attribute/metadata strings are taken as written
+            if kind in ("meta", "attr") or pname in ("abbreviation-short-form-reused", "glossary-term-reused", "abbreviation-expansion"): return (None, [], dict(skipped=1))          # escapes are defined for running text; attribute/metadata strings and note keys/expansions are taken as written
             if c[1:] == b"`" and pname == "code-span": return (None, [], dict(skipped=1))
             if c[1:] == b"|" and pname == "table-cell": return (None, [], dict(skipped=1))
             if c[1:] in (b"[", b"]") and pname == "link-text": return (None, [], dict(skipped=1))
             if kind == "text": c = c[1:]                                                  # what the reader must see
-        ext = EXT | (E["COMPLETE"] if kind == "meta" else (E["SNIPPET"] | E["NO_METADATA"]))
+        complete = kind == "meta" or pname == "abbreviation-expansion"        # LaTeX shows an expansion only in the preamble definitions
+        ext = EXT | (E["COMPLETE"] if complete else (E["SNIPPET"] | E["NO_METADATA"]))
         out = mmd.convert(doc, ext, fmt) if fmt != 5 else mmd.convert_to_data(doc, ext, fmt, 0, None)
         base = mmd.convert(base_doc, ext, fmt) if fmt != 5 else mmd.convert_to_data(base_doc, ext, fmt, 0, None)
         case_d = dict(src=doc.decode("latin-1"), position=pname, char=c.decode("latin-1"), tight=tight, format=fname)
@@ -122,7 +128,7 @@ def make_case():
         sig = lambda s: "text:%s:%s:%s" % (s, fname if fname not in ("beamer", "memoir") else "latex", pname)
         ctext = c.decode("utf-8")
         if fname in ("html", "fodt", "opml"):
-            wrap = (lambda x: b"<r>" + x + b"</r>") if (fname == "html" and kind != "meta") else (lambda x: x)
+            wrap = (lambda x: b"<r>" + x + b"</r>") if (fname == "html" and not complete) else (lambda x: x)
             try:
                 text, attrs, names = parse_xml(wrap(out))
             except expat.ExpatError as e:
@@ -135,7 +141,7 @@ def make_case():
                 return (pmap.h64(doc + bytes([fi])), [], dict(structure_changed=1))          # the probe changed the markup structure of its position: not a text position any more
             pool = [text] + attrs
             want = (ctext if tight else " " + ctext + " ")
-            found = [between(p) for p in pool if between(p) is not None]
+            found = [m for p in pool for m in re.findall("qz01(.*?)qz02", p, re.S)]          # every occurrence (first use and re-use)
             if fname == "opml":
                 # the source is stored verbatim: the probe must be present as written
                 if not any(probe.decode("utf-8") in p for p in pool): v.append((sig("lost-or-altered"), "the source text %r is not stored verbatim in the OPML" % probe, case_d))
@@ -143,6 +149,9 @@ def make_case():
                 v.append((sig("markers-lost"), "marker words around the probe are missing from the output", case_d))
             elif not any(f == want or f.strip() == want.strip() for f in found):
                 v.append((sig("char-altered"), "between the markers the output carries %r, the source has %r" % (found[0], want), case_d))
+            elif pname.endswith("reused") or pname == "abbreviation-expansion":
+                bad = [f for f in found if not (f == want or f.strip() == want.strip())]
+                if bad: v.append((sig("char-altered-in-a-later-occurrence"), "one occurrence carries %r, the source has %r" % (bad[0], want), case_d))
             # order of body marker words
             if fname != "opml":
                 src_words = [w for w in WORDS.findall(doc) if not (kind == "meta" and w in (b"qz01", b"qz02"))]
@@ -150,7 +159,7 @@ def make_case():
                 if kind == "text" or kind == "verbatim":
                     seq = [w for w in out_words if w in src_words]
                     dedup = [w for i, w in enumerate(seq) if i == 0 or seq[i - 1] != w]
-                    if pname != "footnote" and dedup != src_words and sorted(set(dedup)) == sorted(set(src_words)) and names == bnames:
+                    if pname != "footnote" and not pname.endswith("reused") and pname != "abbreviation-expansion" and dedup != src_words and sorted(set(dedup)) == sorted(set(src_words)) and names == bnames:
                         v.append((sig("order"), "marker words appear as %r, source order %r" % (dedup, src_words), case_d))
                     missing = [w for w in src_words if w not in out_words]
                     if missing: v.append((sig("word-lost"), "marker words %r are missing from the output" % missing, case_d))
@@ -160,6 +169,10 @@ def make_case():
             if pname == "url":
                 if not re.search(rb"qz01(.*?)qz02", out, re.S): return (pmap.h64(doc + bytes([fi])), [(sig("markers-lost"), "the URL is missing from the LaTeX output", case_d)], dict(judged=1))
                 return (pmap.h64(doc + bytes([fi])), [], dict(judged=1))     # \\href takes the URL verbatim (hyperref); not judged for escaping
+            if pname in ("abbreviation-short-form-reused", "glossary-term-reused") and any(x in c for x in b"{}\\$%#&_^~"):
+                # the short form / term is used verbatim as the glossaries key (\gls{key}); reserved characters in it are one recorded finding
+                if re.search(rb"\\gls\{[^}]*qz01", out):
+                    return (pmap.h64(doc + bytes([fi])), [("text:latex:glossary-key-with-reserved-character", "LaTeX uses the short form verbatim as a key: %r" % re.findall(rb"\\gls\{[^}]*\}?", out)[:1], case_d)], dict(judged=1))
             err = latex_structure(out)
             berr = latex_structure(base)
             if err and not berr:
